@@ -215,6 +215,11 @@ fn real_main() -> i32 {
             else if what == "a64" { println!("{}", pipeline::a64(lin).unwrap().text); }
             else if what == "rv" { println!("{}", pipeline::rv64(lin).unwrap().text); }
         }
+        Some("wide") => {
+            // scc-verif wide <n> <closure:0|1> <k> <pattern>: print a directed wide-sharing program
+            let g = |i: usize| args.get(i).and_then(|s| s.parse::<usize>().ok()).unwrap_or(0);
+            print!("{}", props::directed::wide_shared_program(g(2), g(3) == 1, g(4), g(5)));
+        }
         Some("sharing") => {
             // scc-verif sharing <l> <closure:0|1> <k>: print a directed sharing program
             let l: usize = args[2].parse().unwrap();
